@@ -132,6 +132,14 @@ def rule_builtins(ck, F, X, rule="R1", want=BUILTINS):
         else:
             body = " ".join((Hh.callee_path(y) or "") for y in Hh.exprs(fall["body"]) if y.get("k") in ("Call", "MethodCall")) + " " + \
                 " ".join((y["path"].get("path") or "") for y in Hh.exprs(fall["body"]) if y.get("k") == "Struct")
+            # one level of local helper functions (e.g. a `user_type(..)` constructor function)
+            for y in Hh.exprs(fall["body"]):
+                if y.get("k") == "Call":
+                    hb = F.lib.body(Hh.callee_path(y) or "")
+                    if hb is not None and hb.get("hir") is not None:
+                        hnb = Hh.norm_body(hb)
+                        body += " " + " ".join((Hh.callee_path(z) or "") for z in Hh.exprs(hnb["value"]) if z.get("k") in ("Call", "MethodCall"))
+                        body += " " + " ".join((z["path"].get("path") or "") for z in Hh.exprs(hnb["value"]) if z.get("k") == "Struct")
             if "to_pascal_case" in body and "OtherRustType" in body:
                 ck.ok(rule, "fallthrough", site, "non-builtin names become Other{pascal(local name), module of the prefix}")
             else:
